@@ -48,3 +48,7 @@ pub const MATTER_CERT_DOESNT_EXPIRE: u64 = 252_455_615_999;
 // `build.rs`. Used by `MatterState::LkgUtc` as the seed value for the
 // Last-Known-Good UTC Time on a freshly-flashed device.
 include!(concat!(env!("OUT_DIR"), "/build_time.rs"));
+
+#[cfg(any(kani, verif_replay))]
+#[path = "/verif/kani/epoch.rs"]
+pub(crate) mod verif_kani_epoch;
